@@ -310,6 +310,14 @@ fn definition_candidate(r: &mut Rng, t: &TaskCtx) -> (String, Option<&'static st
     let head_args = vars.join(", ");
     let quant = vars.join(" ");
     let good_body = body_over(&vars, r);
+    let shared: Vec<&(String, usize)> = t.left_privates.iter().filter(|p| t.right_privates.contains(p) && p.1 > 0).collect();
+    if !shared.is_empty() && r.chance(1, 3) {
+        // the right program's copy of a private predicate shared by both sides is renamed q_p in
+        // the problems; that name occurs in the task as well
+        let (q, a) = shared[r.upto(shared.len())];
+        let vs: Vec<String> = (0..*a).map(|i| format!("X{i}")).collect();
+        return (format!("definition[d]: forall {} ({}_p({}) <-> {} = 1).", vs.join(" "), q, vs.join(", "), vs[0]), Some("predicate-taken-by-renamed-private"));
+    }
     let defect = r.below(14);
     match defect {
         0 => (format!("definition[d]: forall {quant} (fresh({head_args}) <-> {good_body})."), None),
